@@ -16,7 +16,12 @@
 //
 //	w <0|1> | G <nnodes> {<id> <x> <y>} <narcs> {<u> <v> <eu> <ev> <link> <weight|->} | R {ok <k> <link>... <dist> <time> <sd> <ed> ; | panic <msg> ;}
 //
-// (G is the adapter after the whole history; one R entry per Q in order.)
+// (G is the adapter after the whole history; one R entry per Q in order.)  The result ends with
+//
+//	| C <ncalls> <nreplaced>
+//
+// the cc probe: the final-moment queries were asked again <ncalls> times by concurrent goroutines on the
+// same network; <nreplaced> recorded answers were replaced by a concurrent answer that differed.
 //
 // `w` says whether the value handed to gonum's AStar (a route.Network VALUE, see ShortestRoute)
 // satisfies path.Weighted at run time; G is the adapter as gonum sees it (Nodes/From/Edge/Weight);
@@ -32,6 +37,7 @@ import (
 	"reflect"
 	"sort"
 	"strings"
+	"sync"
 
 	"github.com/ctessum/geom"
 	"github.com/ctessum/geom/route"
@@ -817,6 +823,43 @@ func genRoads(r *vproto.Rng) *netCase {
 	return b.c
 }
 
+// cc: a mid-size grid (100-300 nodes, ~15 % of the links deleted, some detoured) with 12-20 final-moment
+// queries between random nodes: the concurrent phase of the impl side (16 goroutines x 4 rounds for this
+// family) has long overlapping A* runs on one network value
+func genCC(r *vproto.Rng) *netCase {
+	g := newBig(r, "cc")
+	b := g.b
+	w, h := r.Range(10, 17), r.Range(10, 17)
+	for y := 0; y < h; y++ {
+		for x := 0; x < w; x++ {
+			g.at(16*x, 16*y)
+		}
+	}
+	spd := func() float64 {
+		if b.c.opt == "T" {
+			return pow2(r)
+		}
+		return 1
+	}
+	for y := 0; y < h; y++ {
+		for x := 0; x < w; x++ {
+			if x+1 < w && !r.Chance(0.15) {
+				d := 0.0
+				if r.Chance(0.1) {
+					d = 16 * g.u * float64(r.Range(1, 3))
+				}
+				b.joinExact(g.at(16*x, 16*y), g.at(16*(x+1), 16*y), d, spd())
+			}
+			if y+1 < h && !r.Chance(0.15) {
+				b.joinExact(g.at(16*x, 16*y), g.at(16*x, 16*(y+1)), 0, spd())
+			}
+		}
+	}
+	b.shuffleLinks()
+	b.queries(r.Range(12, 20), 16*g.u)
+	return b.c
+}
+
 // clustered towns (small dense grids) far apart, joined by single long links
 func genTowns(r *vproto.Rng) *netCase {
 	g := newBig(r, "towns")
@@ -1038,6 +1081,9 @@ func gen(seed uint64, tier string) {
 	for i := 0; i < big; i++ {
 		fmt.Fprintln(out, genRoads(r))
 		fmt.Fprintln(out, genTowns(r))
+		if i%6 == 0 {
+			fmt.Fprintln(out, genCC(r))
+		}
 	}
 	// the priority queue on its own (tie of the Lean heap model to container/heap + gonum's aStarQueue)
 	for i := 0; i < n/2; i++ {
@@ -1146,6 +1192,7 @@ func implLine(line string) string {
 	var res []string
 	var kept []geom.MultiLineString // every returned route, re-verified after the whole history
 	var keptAt []int
+	var ccRuns, ccDiffs int
 	pan := vproto.Safe(func() {
 		var ops []op
 		c, ops = parseCase(line)
@@ -1176,6 +1223,33 @@ func implLine(line string) string {
 			kept = append(kept, rt)
 			keptAt = append(keptAt, len(res)-1)
 		}
+		// cc probe: "This function does not change the Network, so multiple function calls can be run
+		// concurrently".  The queries asked at the final moment (after the last AddLink) are asked again by
+		// several goroutines at once on the SAME network value.  Map iteration order is random, so an equally
+		// cheap alternative route is legitimate: a concurrent answer that differs from the sequential one (or
+		// panics) REPLACES it and is judged by the Spec like any other answer.
+		lastLink := -1
+		for i, o := range ops {
+			if o.isLink {
+				lastLink = i
+			}
+		}
+		var finalQ []query
+		var finalRes []int // index into res
+		qi := 0
+		for i, o := range ops {
+			if o.isLink {
+				continue
+			}
+			if i > lastLink {
+				finalQ = append(finalQ, o.q)
+				finalRes = append(finalRes, qi)
+			}
+			qi++
+		}
+		if len(finalQ) > 0 {
+			ccRuns, ccDiffs = concurrentQueries(c, net, finalQ, finalRes, res, &kept, &keptAt)
+		}
 		// late check: results must not alias state that later calls change, inputs must be untouched
 		intact := c.inputIntact()
 		for k, rt := range kept {
@@ -1197,7 +1271,101 @@ func implLine(line string) string {
 	for _, r := range res {
 		b.WriteString(r)
 	}
+	fmt.Fprintf(&b, " | C %d %d", ccRuns, ccDiffs)
 	return b.String()
+}
+
+// formatAnswer renders one ShortestRoute answer as it appears in the R section.
+func formatAnswer(c *netCase, rt geom.MultiLineString, d, t, sd, ed float64) string {
+	var rb strings.Builder
+	fmt.Fprintf(&rb, " ok %d", len(rt))
+	for _, ls := range rt {
+		fmt.Fprintf(&rb, " %d", linkIndex(c, ls))
+	}
+	fmt.Fprintf(&rb, " %s %s %s %s ;", vproto.F2H(d), vproto.F2H(t), vproto.F2H(sd), vproto.F2H(ed))
+	return rb.String()
+}
+
+// concurrentQueries asks the final-moment queries from G goroutines at once (start barrier, each goroutine
+// in its own rotated order, R rounds).  Returns the number of concurrent calls and the number of queries
+// whose recorded answer was replaced by a differing concurrent one.
+func concurrentQueries(c *netCase, net *route.Network, qs []query, resIdx []int, res []string,
+	kept *[]geom.MultiLineString, keptAt *[]int) (runs, diffs int) {
+	G, R := 8, 3
+	switch c.fam {
+	case "roads", "towns":
+		R = 1
+	case "cc":
+		G, R = 16, 4
+	}
+	type dev struct {
+		q   int
+		txt string
+		rt  geom.MultiLineString
+		pan bool
+	}
+	var mu sync.Mutex
+	var devs []dev
+	var wg sync.WaitGroup
+	start := make(chan struct{})
+	for g := 0; g < G; g++ {
+		wg.Add(1)
+		go func(g int) {
+			defer wg.Done()
+			<-start
+			for round := 0; round < R; round++ {
+				for k := range qs {
+					j := (k + g*7 + round) % len(qs)
+					var rt geom.MultiLineString
+					var d, t, sd, ed float64
+					qp := vproto.Safe(func() { rt, d, t, sd, ed = net.ShortestRoute(qs[j].from, qs[j].to) })
+					var txt string
+					if qp != "" {
+						txt = fmt.Sprintf(" panic %s ;", qp)
+					} else {
+						txt = formatAnswer(c, rt, d, t, sd, ed)
+					}
+					if txt != res[resIdx[j]] {
+						mu.Lock()
+						devs = append(devs, dev{j, txt, rt, qp != ""})
+						mu.Unlock()
+					}
+				}
+			}
+		}(g)
+	}
+	close(start)
+	wg.Wait()
+	runs = G * R * len(qs)
+	seen := map[int]bool{}
+	for _, d := range devs {
+		if seen[d.q] {
+			continue
+		}
+		seen[d.q] = true
+		diffs++
+		ri := resIdx[d.q]
+		res[ri] = d.txt
+		// the late re-verification must look at the replaced route
+		found := false
+		for k := range *keptAt {
+			if (*keptAt)[k] == ri {
+				found = true
+				if d.pan {
+					*kept = append((*kept)[:k], (*kept)[k+1:]...)
+					*keptAt = append((*keptAt)[:k], (*keptAt)[k+1:]...)
+				} else {
+					(*kept)[k] = d.rt
+				}
+				break
+			}
+		}
+		if !found && !d.pan {
+			*kept = append(*kept, d.rt)
+			*keptAt = append(*keptAt, ri)
+		}
+	}
+	return
 }
 
 func impl() {
